@@ -110,6 +110,13 @@ def _cases(spec, ctx):
         if chunk_id % n == s:
             yield {"k": "vals", "lo": lo, "hi": lo + 16, "blocks": lo < spec["bmax"]}
         chunk_id += 1
+    # seeks inside bounded blocks: (prefix bits, block length, bits consumed) x every seek target around the block
+    chunk_id = 0
+    for prefix in range(0, 10 if spec["maxlen"] <= 12 else 18):
+        for length in range(-2, 19 if spec["maxlen"] <= 12 else 35):
+            if chunk_id % n == s:
+                yield {"k": "blockseek", "prefix": prefix, "length": length}
+            chunk_id += 1
     # random programs
     for i in range(spec["programs"]):
         rng = random.Random("%s/C20/%d/%d" % (ctx.seed, s, i))
@@ -1231,9 +1238,71 @@ def _count_bit_ops(prog):
     return n
 
 
+def run_blockseek(case, ctx):
+    """Reader and writer run the same steps: `prefix` bits, begin a bounded block of `length` bits, consume `used` bits
+    (reads / writes of 1s, possibly past the end of the block), then seek to a target.  They must agree on whether
+    the seek is refused, and afterwards on tell() and bits_remaining; what the reader then reads must be the stream's
+    own bits up to the end of the block and 1s beyond it; and a seek that would leave the block forwards is refused
+    by both (documented in both seek() methods)."""
+    from io import BytesIO
+
+    R = real()
+    prefix, length = case["prefix"], case["length"]
+    data = bytes([0x5A, 0xC3, 0x96, 0x3C, 0xA5, 0x69, 0x0F, 0xF0, 0x55, 0xAA])
+    bits = "".join("{:08b}".format(b) for b in data)
+    start = prefix
+    end = start + max(length, 0)
+    for used in range(0, max(length, 0) + 4):
+        for target in range(max(0, start - 3), min(len(bits) - 16, end + 6)):
+            outcome = {}
+            for who in ("reader", "writer"):
+                if who == "reader":
+                    x = R.Reader(BytesIO(data))
+                    step = x.read_bit
+                else:
+                    x = R.Writer(BytesIO())
+                    step = lambda: x.write_bit(1)
+                for _ in range(prefix):
+                    step()
+                x.bounded_block_begin(length)
+                for _ in range(used):
+                    step()
+                before = (x.tell(), x.bits_remaining)
+                try:
+                    x.seek(target // 8, 7 - target % 8)
+                    err = None
+                except Exception as e:
+                    err = type(e).__name__
+                outcome[who] = (before, err, x.tell() if err is None else None, x.bits_remaining if err is None else None)
+                if who == "reader" and err is None and length >= 0:
+                    # what follows: real bits while inside the block, 1s past its end
+                    pos = target
+                    got = "".join(str(x.read_bit()) for _ in range(6))
+                    left = x.bits_remaining + 6  # value right after the seek
+                    exp = "".join(bits[pos + i] if i < max(left, 0) else "1" for i in range(6))
+                    ctx.count("blockseek_reads_checked")
+                    if got != exp:
+                        ctx.violation("read:bitstream:seek-in-block", "prefix %d, block %d, %d bits consumed, seek to bit %d: then read %s, expected %s (bits_remaining after seek %d)"
+                                      % (prefix, length, used, target, got, exp, left))
+            ctx.count("blockseek_cases")
+            cur = min(start + used, end) if length >= 0 else start
+            if outcome["reader"][1:] != outcome["writer"][1:]:
+                ctx.violation("seek-in-block:reader-writer-disagree",
+                              "prefix %d, block %d, %d bits consumed, seek to bit %d: reader (error, tell, bits_remaining) %r, writer %r"
+                              % (prefix, length, used, target, outcome["reader"][1:], outcome["writer"][1:]))
+            elif length >= 0 and target > max(end, cur) and outcome["reader"][1] is None:
+                ctx.violation("seek-in-block:left-the-block", "prefix %d, block %d, %d bits consumed: seek to bit %d beyond the end of the block (bit %d) was not refused"
+                              % (prefix, length, used, target, end))
+            if outcome["reader"][1] is not None:
+                ctx.count("blockseek_refused")
+    ctx.seen(jsonx.key_hash(case))
+
+
 def run_case(case, ctx):
     k = case["k"]
-    if k == "exh":
+    if k == "blockseek":
+        run_blockseek(case, ctx)
+    elif k == "exh":
         run_exh(case, ctx)
     elif k == "vals":
         run_vals(case, ctx)
